@@ -70,15 +70,17 @@ TReset ==
 TTamper ==
   /\ Is("Tamper") /\ state = "run"
   /\ Ev.res = Expected(Ev)
-  \* the edit really is an edit (or the identity control really is the identity)
-  /\ (Ev.what.t = "identity") <=> (Ev.proof_same /\ Ev.stmt_same /\ Ev.key_same)
+  \* the identity control really is the identity
+  \* (an edit may happen to change nothing - swapping two equal instance vectors, replacing an identity commitment by the
+  \* identity: its three facts say so and the expected verdict is then acceptance; such edits are counted by the check)
+  /\ (Ev.what.t = "identity") => (Ev.proof_same /\ Ev.stmt_same /\ Ev.key_same)
   /\ seen' = seen \cup {KeyOf(Ev.what)}
   /\ UNCHANGED <<run, bits, state>>
 
 TSTamper ==
   /\ Is("STamper") /\ state = "run" /\ IsStd(run)
   /\ Ev.res = Expected(Ev)
-  /\ (Ev.what.t = "identity") <=> (Ev.proof_same /\ Ev.stmt_same /\ Ev.key_same)
+  /\ (Ev.what.t = "identity") => (Ev.proof_same /\ Ev.stmt_same /\ Ev.key_same)
   /\ seen' = seen \cup {<<"s", Ev.what.entry, Ev.what.t, Ev.what.n>>}
   /\ UNCHANGED <<run, bits, state>>
 
